@@ -293,6 +293,13 @@ def dispatch(E, c, args):
         a = deref(E, args[0]) if args else None
         if meth in ("from",) and isinstance(a, VInt):
             return VBig(a.t)
+        if meth == "from_bytes_be":
+            # magnitude of an opaque byte string: an arbitrary natural number; the sign argument decides the sign
+            mag = z3.FreshConst(z3.IntSort(), "magnitude")
+            E.pc.append(mag >= 0)
+            sg = deref(E, args[0])
+            if isinstance(sg, VEnum) and sg.variant in ("Plus", "Minus", "NoSign"):
+                return VBig(mag if sg.variant == "Plus" else (-mag if sg.variant == "Minus" else z3.IntVal(0)))
         if meth == "pow":
             n = E.concretize(deref(E, args[1]).t)
             if n is None:
@@ -495,7 +502,21 @@ def dispatch(E, c, args):
         if isinstance(a, VInt):
             mx = "max" in c.split("::")[2]
             return VInt(z3.If((a.t >= b.t) if mx else (a.t <= b.t), a.t, b.t), a.ty)
-    if re.match(r"^(std|alloc)::(rc::Rc|boxed::Box|sync::Arc)::<.*>::new$", c, re.S):
+    if re.match(r"^<(str|std::string::String|String) as (std::borrow::)?ToOwned>::to_owned$", c) or re.match(r"^<str as (std::string::)?ToString>::to_string$", c):
+        return args[0] if not isinstance(args[0], VRef) else clone(E.read_ref(args[0]))
+    mt = re.match(r"^<(.*) as (?:std::convert::)?TryInto<(.*)>>::try_into$", c, re.S)
+    if mt and mt.group(1).strip() == mt.group(2).strip():
+        return VEnum("Result", "Ok", [args[0]])
+    if re.match(r"^(std::boxed::|alloc::boxed::)?Box::<\[.*; \d+\]>::new_uninit$", c, re.S):
+        # lowering of vec![..]: Box<MaybeUninit<[T; N]>> written through a raw pointer, then box_assume_init_into_vec_unsafe
+        cell = Cell(VStruct("MaybeUninit", [UNIT, VStruct("ManuallyDrop", [VStruct("MaybeDangling", [UNIT])])]), "vec_macro_box")
+        return VStruct("Box", [VStruct("Unique", [VStruct("NonNull", [VRef(cell)])])])
+    if re.search(r"(^|::)box_assume_init_into_vec_unsafe::<.*>$", c, re.S):
+        b = args[0]
+        r = b.fields[0].fields[0].fields[0]
+        arr = E.read_ref(r).fields[1].fields[0].fields[0]
+        return VSeq(list(arr.items), "vec")
+    if re.match(r"^((std|alloc)::(rc::Rc|boxed::Box|sync::Arc)|Rc|Box|Arc)::<.*>::new$", c, re.S):
         return VStruct(re.search(r"(Rc|Box|Arc)", c).group(1), [args[0]])
     if c.startswith("std::intrinsics::") or c.startswith("core::intrinsics::"):
         nm = c.split("::")[2]
